@@ -140,7 +140,16 @@ def fsTx (idx : Nat) (j : Json) : Http.Answer × Flow.Body :=
         match x.getObjVal? "type" with
         | .ok (.str t) => .problem (Http.ErrType.ofType t)
         | _ => .notJson
-  (⟨bool j "delivered", bool j "ok2xx", nonce, body⟩, if isNull fl then .undecodable else fsBody fl)
+  let rd := get j "redir"
+  let redir : Http.Redir :=
+    match rd with
+    | .str "bad" => .bad
+    | x =>
+      match x.getObjVal? "to" with
+      | .ok u => .to (natOf u) (bool x "keep")
+      | _ => .no
+  (⟨bool j "delivered", bool j "ok2xx", nonce, body, redir⟩,
+    if isNull fl then .undecodable else fsBody fl)
 
 structure FsGroup where
   n : Nat                 -- transmissions consumed by this call
@@ -191,6 +200,8 @@ def fsErrName : Http.Err → String
   | .nonceFetch e => "nonceFetch:" ++ fsErrName e
   | .pollDecode => "pollDecode"
   | .pollExhausted => "pollExhausted"
+  | .badLocation => "badLocation"
+  | .tooManyRedirects => "tooManyRedirects"
 
 def fsHttpRes : Http.Result → String
   | .ok _ => "ok"
